@@ -595,7 +595,7 @@ class RTable:
                     ws = z3.Union(*[z3.Re(z3.StringVal(ch)) for ch in S.POLARS_WS[1:]])
                     anyc = z3.Full(z3.ReSort(z3.StringSort()))
                     w.define("strip: only blanks", z3.Implies(K.And(P[i], K.Not(c.null)), K.Not(z3.InRe(c.val, z3.Concat(anyc, ws, anyc)))))
-            return [S.strip_ws(c, L, S.SQLITE_TRIM) for c in x]
+            return [S.strip_ws(c, L, S.SQLITE_TRIM, side=w.side) for c in x]
         if op in ("starts_with", "ends_with", "contains"):
             fn = {"starts_with": z3.PrefixOf, "ends_with": z3.SuffixOf, "contains": lambda p, s: z3.Contains(s, p)}[op]
             out = [S.str_pred(x[i], a[1][i], fn) for i in range(n)]
